@@ -224,6 +224,10 @@ def o112(ctx):
                 r = None
             evs = [e for e in it.events if e.kind == "call" and e.name in ("mrcfile.write", "emfile.write", "mrcfile.new", "mrcfile.open")]
             ctx.count(1)
+            if ext != "txt" and not evs and r is not None:
+                # write() ran to its end on this name without a library writer being seen: the writer is reached through a form the interpretation does
+                # not resolve (a callable picked from a table by a generator, ...) -- nothing is read off that
+                raise Unsupported(f"cryomap.write({name!r}) ends without a recognised library writer call and without an error: the dispatch is not resolved", fw)
             if evs and stem == stems[0]:
                 wexts.append(ext)
             libs = sorted({lib_of(e) for e in evs})
@@ -385,4 +389,4 @@ def _obligations():
 
 
 def obligations():
-    return _obligations() + [labels_obligation("C11"), selectors_obligation("C11"), mutations_obligation("C11"), effects_obligation("C11"), plumbing_obligation("C11"), overrides_obligation("C11"), options_obligation("C11"), handlers_obligation("C11")]
+    return _obligations() + [labels_obligation("C11"), selectors_obligation("C11"), mutations_obligation("C11"), loopstate_obligation("C11"), effects_obligation("C11"), plumbing_obligation("C11"), overrides_obligation("C11"), options_obligation("C11"), handlers_obligation("C11")]
